@@ -108,7 +108,7 @@ func runGConc(mk storeMaker, setup []Req, threads [][]Req, sched []int, final []
 	for round := 0; round < 200; round++ {
 		busy := false
 		for i, t := range s.threads {
-			if t.running || t.parked != "" || len(t.todo) > 0 {
+			if !t.dead && (t.running || t.parked != "" || len(t.todo) > 0) {
 				busy = true
 				step(i)
 			}
